@@ -226,6 +226,9 @@ def syntaxTable : List Syntax := [
   ⟨"ISOR", "ISOR", [df "s" "s" 0.1, df "st" "st" 0.2], true⟩,
   ⟨"NCSY", "NCSY", [rq "DN" "DN", df "sd" "sd" 0.1, df "su" "su" 0.05], true⟩,
   ⟨"BUMP", "BUMP", [df "s" "s" 0.02], false⟩,
+  ⟨"EADP", "EADP", [], true⟩,
+  ⟨"EXYZ", "EXYZ", [], true⟩,
+  ⟨"BOND", "BOND", [], true⟩,
   ⟨"DAMP", "DAMP", [df "damp" "damp" 0.7, df "limse" "limse" 15], false⟩,
   ⟨"SWAT", "SWAT", [df "g" "g" 0, df "U" "U" 2], false⟩,
   -- classes whose constructor is not table shaped (hand-written models below)
